@@ -51,7 +51,7 @@ func runMulti(c *Case) *Result {
 	}
 	wait := func(i int) {
 		// wait until the server has consumed everything and blocks again (or closed)
-		deadline := time.Now().Add(20 * time.Second)
+		deadline := time.Now().Add(hangTimeout())
 		for {
 			conns[i].mu.Lock()
 			idle := (conns[i].waiting && len(conns[i].segs) == 0 && len(conns[i].cur) == 0) || conns[i].closed
@@ -137,6 +137,18 @@ func runMulti(c *Case) *Result {
 	time.Sleep(200 * time.Microsecond)
 	srv.Close()
 	<-served
+	// C15 on the real code alone: every connection's transcript and callback trace must equal what
+	// the same client traffic produces on a server that serves it alone (same configuration)
+	r.Solo = "ok"
+	for i := 0; i < k; i++ {
+		sc := &Case{ID: c.ID, Camp: c.Camp, L: c.L, Auth: c.Auth, TLS: c.TLS, Ver: c.Ver, GP: c.GP, GPNil: c.GPNil,
+			MW: c.MW, Term: c.Term, In: inputs[i], WF: -1, CX: c.CX, Extra: map[string]string{}}
+		sr := RunCase(sc)
+		if canonOut(sr.Out) != outs[i] || strings.Join(sr.Ev, ";") != evs[i] {
+			r.Solo = "diff:" + strconv.Itoa(i)
+			break
+		}
+	}
 	r.MultiOut = strings.Join(outs, "/")
 	r.MultiEv = strings.Join(evs, "/")
 	r.End = strings.Join(ends, "/")
